@@ -1,4 +1,6 @@
 from .common import *
+import sys
+from vlib import BrokenCheck
 
 NATIVE = ['env_native.c', 'env_native_file.c']
 # integration sequences over the menu of h_c17.c (index: 0 -e 1 -d 2 -v 3 -i in.bin 4 -i nofile 5 -i <130 chars> 6 -o out.bin 7 -o /nodir/out 8 -k valid
@@ -10,31 +12,56 @@ SEQS_QUICK = [[k] for k in range(24)] + [
     [0, 1], [1, 2, 3, 8, 6], [17, 3], [18, 19], [3, 6, 8], [16], [3, 0], [8, 6, 3, 1], [0, 0],
 ]
 
+def exc_selftest(r):
+    """translation validation of the exception lowering (ir2c --exceptions + env/env_exc.c): nine try/catch/cleanup/rethrow scenarios, generated C vs g++ build"""
+    import subprocess, shutil
+    d = r.ws.path('tv_exc')
+    os.makedirs(d, exist_ok=True)
+    tv = os.path.join(VERIF, 'tv')
+    def sh_(cmd):
+        return subprocess.run(cmd, cwd=d, capture_output=True, text=True)
+    steps = [['clang++-14', '-std=c++17', '-O1', '-fno-vectorize', '-fno-slp-vectorize', '-fno-unroll-loops', '-S', '-emit-llvm', os.path.join(tv, 'exc_t.cpp'), '-o', 't.ll'],
+             [sys.executable, os.path.join(VERIF, 'engine', 'ir2c.py'), 't.ll', '-o', 't.c', '--exceptions'],
+             ['gcc', '-std=gnu11', '-w', '-O1', '-I' + os.path.join(VERIF, 'engine'), '-I' + os.path.join(VERIF, 'env'), '-DIR2C_EXCEPTIONS', 't.c', os.path.join(tv, 'exc_drv.c')] +
+             [os.path.join(VERIF, 'env', e) for e in ('env_cxx.c', 'env_exc.c', 'env_heap.c')] + ['-o', 'model'],
+             ['g++', '-std=c++17', '-O1', os.path.join(tv, 'exc_t.cpp'), os.path.join(tv, 'exc_real.cpp'), '-o', 'real']]
+    for c in steps:
+        x = sh_(c)
+        if x.returncode != 0:
+            raise BrokenCheck('exception self-test build failed: %s' % x.stderr[-800:])
+    a, b = sh_(['./model']).stdout, sh_(['./real']).stdout
+    if a != b or not a:
+        r.tv_failed = 'exception lowering self-test: generated C and g++ build disagree'
+        r.tv_results.append(dict(unit='exception lowering', inputs_agreeing=0, mismatch=(a + '|' + b)[-400:]))
+    else:
+        r.tv_results.append(dict(unit='exception lowering (tv/exc_t.cpp)', inputs_agreeing=a.count('/')))
+
 def run(tier):
     r = Run('C17', tier)
+    exc_selftest(r)
     T = 600 if tier == 'quick' else 1800
     ureal = U_cli_real()
     # ---- one step of the option loop from an arbitrary Inv state
     u = U_cli()
     lens = [0, 1, 5, 23, 24, 25, 60, 122, 123, 124, 130, 200] if tier == 'quick' else list(range(0, 40)) + [60, 100, 118, 119, 120, 121, 122, 123, 124, 125, 126, 127, 128, 129, 130, 140, 200, 250]
     def step(name, optc, n):
-        r.add(Ob('step-%s%s' % (name, '-arglen%d' % n if n is not None else ''), 'h_c17.c', [u], defines=['H_STEP', 'ARGLEN=%d' % (n or 0), 'ENV_NO_EXIT'] + (['OPTC=%d' % optc] if optc is not None else []),
+        r.add(Ob('step-%s%s' % (name, '-arglen%d' % n if n is not None else ''), 'h_c17.c', [u], defines=['H_STEP', 'ARGLEN=%d' % (n or 0), 'ENV_NO_EXIT', 'IR2C_EXCEPTIONS'] + (['OPTC=%d' % optc] if optc is not None else []),
                  unwind=max(64, (n or 0) + 16), timeout=T, mem_gb=16, envs=CLI_ENVS, cbmc_extra=FS + ['--slice-formula'], replay_units=[ureal], replay_envs=NATIVE,
                  note='option %s, any argument text of that many printable characters, any state satisfying Inv, any fopen outcome / file size / number' % name))
     for ch in 'edvVhn':
         step('opt-' + ch, ord(ch), None)
-    step('cmode', 1, None); step('hmode', 2, None); step('unknown-option', None, 5)
+    step('cmode', 1, 3); step('hmode', 2, 3); step('unknown-option', None, 5)
     for ch in 'iok':
         for n in lens:
             step('opt-' + ch, ord(ch), n)
     # ---- what get_v_opt does around the loop
     ut = U_cli_tail()
     for n in ((0, 1, 2) if tier == 'quick' else (0, 1, 2, 3)):
-        r.add(Ob('tail-%d-options' % n, 'h_c17.c', [ut], defines=['H_TAIL', 'NOPT=%d' % n, 'ENV_NO_EXIT'], unwind=270, timeout=T, mem_gb=16, envs=CLI_ENVS, cbmc_extra=FS,
+        r.add(Ob('tail-%d-options' % n, 'h_c17.c', [ut], defines=['H_TAIL', 'NOPT=%d' % n, 'ENV_NO_EXIT', 'IR2C_EXCEPTIONS'], unwind=270, timeout=T, mem_gb=16, envs=CLI_ENVS, cbmc_extra=FS,
                  replay_units=[ureal], replay_envs=NATIVE, note='parseOpts replaced by "any Inv state, any verdict"; default output opens or not'))
     # ---- main
     um = U_cli_main()
-    r.add(Ob('main-dispatch', 'h_c17.c', [um], defines=['H_MAIN', 'ENV_NO_EXIT'], unwind=64, timeout=T, mem_gb=16, envs=CLI_ENVS, cbmc_extra=FS,
+    r.add(Ob('main-dispatch', 'h_c17.c', [um], defines=['H_MAIN', 'ENV_NO_EXIT', 'IR2C_EXCEPTIONS'], unwind=64, timeout=T, mem_gb=16, envs=CLI_ENVS, cbmc_extra=FS,
              replay_units=[ureal], replay_envs=NATIVE, note='get_v_opt replaced by "NULL, or any state satisfying Q"; kernel operations replaced by recorders with a symbolic result'))
     # ---- integration: the undivided main() on concrete option sequences
     seqs = SEQS_QUICK if tier == 'quick' else SEQS_QUICK + [[a, b] for a in range(24) for b in range(24)]
@@ -46,7 +73,7 @@ def run(tier):
         seen.add(nm)
         plens = (1, 6, 130) if 21 in sq else (6,)
         for pl in plens:
-            r.add(Ob(nm + ('-path%d' % pl if 21 in sq else ''), 'h_c17.c', [u], defines=['H_WHOLE', 'SEQ=%s' % ','.join(str(k) for k in sq), 'WPATHLEN=%d' % pl, 'ENV_NO_EXIT'], unwind=270, timeout=T, mem_gb=16,
+            r.add(Ob(nm + ('-path%d' % pl if 21 in sq else ''), 'h_c17.c', [u], defines=['H_WHOLE', 'SEQ=%s' % ','.join(str(k) for k in sq), 'WPATHLEN=%d' % pl, 'ENV_NO_EXIT', 'IR2C_EXCEPTIONS'], unwind=270, timeout=T, mem_gb=16,
                      envs=CLI_ENVS, cbmc_extra=FS + (['--slice-formula'] if 21 in sq else []), replay_units=[ureal], replay_envs=NATIVE, note='real main/get_v_opt/parseOpts together; operation result, file size and the symbolic path symbolic'))
     r.bounds = ['option vectors of ANY length: induction over the option loop (Inv holds initially: tail obligations; preserved by every accepted option: step obligations; a rejected option ends the run with a diagnostic)',
                 'per step (one query per option code class; the class unknown-option covers the other 245 char values): every argument text of the listed lengths %s over printable characters, every Inv state' % lens,
@@ -68,9 +95,11 @@ def run(tier):
     cc('step-o-dir', ['H_STEP', 'ARGLEN=3', 'OPTC=%d' % ord('o')], U + ['IN.c=%d' % ord('o'), 'IN.fopen_ok=0'] + txt('arg', 'dir'))
     cc('step-k-valid', ['H_STEP', 'ARGLEN=24', 'OPTC=%d' % ord('k')], U + ['IN.c=%d' % ord('k')] + txt('arg', 'QUJDREVGR0hJSktMTU5PUA=='))
     cc('step-k-one-pad', ['H_STEP', 'ARGLEN=24', 'OPTC=%d' % ord('k')], U + ['IN.c=%d' % ord('k')] + txt('arg', 'QUJDREVGR0hJSktMTU5PUFE='))
-    for v in (0, 4, 5, 255, 256, -1):
-        cc('step-cmode-%d' % v, ['H_STEP', 'ARGLEN=0', 'OPTC=1'], U + ['IN.c=1', 'IN.num=%d' % v])
-    cc('step-hmode-twice', ['H_STEP', 'ARGLEN=0', 'OPTC=2'], ['IN.mode=101', 'IN.ctype=255', 'IN.htype=1', 'IN.c=2', 'IN.num=2'])
+    for v in (0, 4, 5, 255, 256, -1, 4294967296, 4294967298, 9223372036854775807):
+        cc('step-cmode-%d' % v, ['H_STEP', 'ARGLEN=3', 'OPTC=1'], U + ['IN.c=1', 'IN.num=%d' % v, 'IN.consumed=3', 'IN.erange=%d' % (v == 9223372036854775807)])
+    cc('step-hmode-twice', ['H_STEP', 'ARGLEN=3', 'OPTC=2'], ['IN.mode=101', 'IN.ctype=255', 'IN.htype=1', 'IN.c=2', 'IN.num=2', 'IN.consumed=3'])
+    cc('step-cmode-text', ['H_STEP', 'ARGLEN=3', 'OPTC=1'], U + ['IN.c=1', 'IN.num=0', 'IN.consumed=0'])
+    cc('step-cmode-2x', ['H_STEP', 'ARGLEN=3', 'OPTC=1'], U + ['IN.c=1', 'IN.num=2', 'IN.consumed=1'])
     cc('step-second-mode', ['H_STEP', 'ARGLEN=0', 'OPTC=%d' % ord('d')], ['IN.mode=101', 'IN.ctype=255', 'IN.htype=255', 'IN.c=%d' % ord('d')])
     cc('step-unknown', ['H_STEP', 'ARGLEN=0'], U + ['IN.c=%d' % ord('x')])
     H = lambda k, mode, fp, out, key, ok=1, ct=255, ht=255: ['IN.h[%d].ok=%d' % (k, ok), 'IN.h[%d].mode=%d' % (k, ord(mode)), 'IN.h[%d].ctype=%d' % (k, ct), 'IN.h[%d].htype=%d' % (k, ht),
